@@ -52,6 +52,7 @@ def cases(draw, tier):
           'input_seed': 0}
   if draw(st.booleans()):
     case['stats'] = {'seed': draw(st.integers(0, 9999)), 'wild': draw(st.booleans())}
+  draw(engine.usage_dimensions(case))
   return case
 
 
